@@ -220,6 +220,11 @@ class Runner:
             c.net.down.discard((w[1], w[2]))
         elif k == 'tick':
             c.clock.t += int(w[1])
+        elif k == 'readdr':
+            # the instance's connections come from another address from now on (DHCP lease, roaming, NAT rebinding)
+            if not hasattr(c, 'src_addr'):
+                c.src_addr = {}
+            c.src_addr[w[1]] = '10.%d.%d.7' % (len(c.src_addr) + 9, c.clock.t % 250)
         elif k == 'crash':
             c.crash(w[1])
         elif k == 'restart':
